@@ -578,14 +578,33 @@ def rule_set_coordinate(chk, fb):
         floor=2,
     )
     tr = find_translate(fb)
+    # private helpers that merely forward their parameters to the kernel: helper -> {kernel position: helper parameter}
+    fwd = {}
+    for h_, hb in fb.mir.items():
+        if h_ in tr or hb["kind"] not in ("Fn", "AssocFn"):
+            continue
+        hfl = None
+        for _, ht in fb.calls_in(hb):
+            if ht.get("fn") in tr and len(ht["args"]) >= 3:
+                hfl = hfl or Flow(fb, hb)
+                m = {}
+                for pos in (1, 2):
+                    ps = {a[1] for a in hfl.atoms(ht["args"][pos]) if a[0] == "arg"}
+                    if len(ps) == 1:
+                        m[pos] = next(iter(ps))
+                if len(m) == 2:
+                    fwd[h_] = m
     for d, b in fb.mir.items():
         if not d.startswith("structs::cell::Cell::set_coordinate"):
             continue
         fl = Flow(fb, b)
-        for bi, t in fl.calls(lambda t: t.get("fn") in tr):
+        for bi, t in fl.calls(lambda t: t.get("fn") in tr or t.get("fn") in fwd):
             chk.touch(d)
             for pos, (newf, oldg) in ((1, ("col", "get_col_num")), (2, ("row", "get_row_num"))):
-                at = fl.atoms(t["args"][pos])
+                apos = pos if t["fn"] in tr else fwd[t["fn"]][pos] - 1
+                if apos >= len(t["args"]):
+                    continue
+                at = fl.atoms(t["args"][apos])
                 fields = {a[2] for a in at if a[0] == "field" and a[1].endswith("CellCoordinates")}
                 getters = {a[1].split("::")[-1] for a in at if a[0] == "call"}
                 other = {"col": "row", "row": "col"}[newf]
